@@ -102,7 +102,7 @@ def measures():
     a(M('eigenvector_centrality_und@bin', 'und_bin_conn', lambda b, X, e: b.eigenvector_centrality_und(X), N))
     a(M('subgraph_centrality', 'und_bin', lambda b, X, e: b.subgraph_centrality(X), N))
     a(M('matching_ind_und', 'und_bin', lambda b, X, e: b.matching_ind_und(X), P))
-    for st in (1, 2, 3, 4, 5, 6):
+    for st in (0, 1, 2, 3, 4, 5, 6):
         a(M('gtom:%d' % st, 'und_bin', lambda b, X, e, st=st: b.gtom(X, st), P))
     a(M('edge_nei_overlap_bu', 'und_bin', lambda b, X, e: b.edge_nei_overlap_bu(X), (P, MS, SKIPK)))
     a(M('edge_nei_overlap_bd', 'dir_bin', lambda b, X, e: b.edge_nei_overlap_bd(X), (P, MS, SKIPK)))
